@@ -114,6 +114,24 @@ func evalCondEnv(v ssa.Value, env map[*types.Var]bool) (val bool, ok bool) {
 			}
 		}
 	case *ssa.BinOp:
+		if (x.Op == token.EQL || x.Op == token.NEQ) && (isNilConst(x.X) || isNilConst(x.Y)) {
+			// pointer-typed field in env: the bool says "is non-nil"
+			other := x.X
+			if isNilConst(other) {
+				other = x.Y
+			}
+			if ld, ok := other.(*ssa.UnOp); ok && ld.Op == token.MUL {
+				if fa, isfa := ld.X.(*ssa.FieldAddr); isfa {
+					if nonNil, has := env[fieldOfAddr(fa)]; has {
+						if x.Op == token.EQL {
+							return !nonNil, true
+						}
+						return nonNil, true
+					}
+				}
+			}
+			return false, false
+		}
 		if x.Op == token.EQL || x.Op == token.NEQ {
 			a, ok1 := evalCondEnv(x.X, env)
 			b, ok2 := evalCondEnv(x.Y, env)
